@@ -5,7 +5,7 @@
    simple-vhost, evhost, userdir, X-Sendfile, WebDAV Destination, symlink walk, and their composition in http_response_prepare)
    are tied by harness/roots_h.c, by the running server (props/roots.py) and, for the order of the X-Sendfile / Destination
    steps, by Gen/GenRoots.v which is re-read from the source on every run. *)
-From LV Require Import Base.Bytes Gen.GenBurl Gen.GenRoots Url.UrlModel Url.UrlProofs Roots.RootsModel Roots.RootsProofs.
+From LV Require Import Base.Bytes Gen.GenBurl Gen.GenRoots Url.UrlModel Url.UrlProofs Roots.RootsModel Roots.RootsProofs H1.H1Model Roots.HostProofs.
 Local Open Scope N_scope.
 
 (* buffer_path_simplify never leaves a "." or ".." segment, for every input (absolute or not,
@@ -113,3 +113,19 @@ Theorem request_target_to_physical_path : forall isdir flags c auth target t' pa
   nodot p /\ nodot b /\ (exists rest, p = b ++ rest) /\ designated c dr b.
 Proof. exact target_to_physical. Qed.
 Print Assumptions request_target_to_physical_path.
+
+(* host-strict mode needs no assumption about the Host: whatever request_check_hostname() and http_request_host_normalize() let
+   through (H1/H1Model.v, tied to request.c by C01's correspondence) has no '/' and no leading '.' *)
+Theorem strict_host_is_a_path_segment : forall flags h h',
+  has_flag flags OPT_HOST_STRICT = true -> nonul h -> host_policy flags h = HostOk h' -> host_ok h'.
+Proof. exact host_policy_strict_ok. Qed.
+Print Assumptions strict_host_is_a_path_segment.
+
+Theorem strict_request_target_to_physical_path : forall isdir flags c h auth target t' path q dr b p,
+  conf_ok c -> has_flag flags OPT_HOST_STRICT = true -> nonul h ->
+  host_policy flags h = HostOk auth ->
+  parse_target flags target = TOk t' path q ->
+  physical isdir c auth path = Phys dr b p ->
+  nodot p /\ nodot b /\ (exists rest, p = b ++ rest) /\ designated c dr b.
+Proof. exact strict_request_to_physical. Qed.
+Print Assumptions strict_request_target_to_physical_path.
